@@ -56,6 +56,7 @@ class PitRun:
         self.wires = {}
         self.nsent = 0
         self.coros = {}
+        self.shared_param = None
 
     def close(self):
         for c in self.coros.values():
@@ -165,6 +166,14 @@ class PitRun:
             e = len(self.tasks) + 1
             name = self.int_name(t)
             kw = dict(can_be_prefix=bool(t['cbp']), lifetime=t['life'] * TICK_MS, nonce=0x01020304)
+            if e % 2 == 0:
+                # every second Interest is expressed through ONE InterestParam object that the caller keeps and
+                # overwrites for the next Interest (the parameters of a pending Interest must not follow it)
+                if self.shared_param is None:
+                    self.shared_param = enc.InterestParam()
+                sp = self.shared_param
+                sp.can_be_prefix, sp.lifetime, sp.nonce, sp.must_be_fresh = bool(t['cbp']), t['life'] * TICK_MS, 0x01020304, False
+                kw = dict(interest_param=sp)
             self.vfut.append([])
             try:
                 before = len(self.face.out)
